@@ -492,8 +492,9 @@ def judge_stats(ctx, x, y, var, coef, pk, kind, rep, label, case):
                 ctx.dev(f'{tag}.red_chisq.rel', d / abs(st[name]) if st[name] else d)
             elif name == 'p_value':
                 ctx.dev(f'{tag}.p_value.abs', d)
-            else:
-                ctx.dev(f'{tag}.aic.abs_per_point', d / n)
+            elif dchi2 <= 1e-10 * chi2:
+                # (an exact fit, n == k, has chi^2 at rounding level: AIC is ill-conditioned there)
+                ctx.dev(f'{tag}.aic.abs_per_point_well_conditioned', d / n)
             ctx.dev(f'{tag}.{name}.fraction_of_tolerance', d / tol[name] if tol[name] > 0 else d)
         if not ok:
             ok_all = False
@@ -514,9 +515,11 @@ def judge_success(ctx, xw, yw, vw, lo, hi, coef, pk, pair, rep, req, case):
                       {**case, 'popt_peak': pk, 'reported': rep}, requirement=which, **kw)
 
     p = rep['p_value']
+    k = pm.n_params(kind, deg)
     if not p >= req.min_p_value:
-        bad('min_p_value', f'p = {p!r} is not >= min_p_value = {req.min_p_value!r}',
-            p_is_nan=bool(math.isnan(p)))
+        bad('min_p_value', f'p = {p!r} is not >= min_p_value = {req.min_p_value!r} '
+            f'({len(xw)} points, {k} parameters)',
+            p_is_nan=bool(math.isnan(p)), zero_dof=bool(len(xw) == k))
     amp = pk['amplitude']
     if not amp >= 0:
         bad('amplitude', f'amplitude = {amp!r} < 0')
@@ -1028,4 +1031,9 @@ FINDING_PREDICATES = {
         or (v['kind'] == 'fit_peaks_raised' and _keys(v).get('exc') == 'IndexError'
             and _keys(v).get('raised_in') == 'fit_peaks' and _keys(v).get('windows') == 'auto'
             and _keys(v).get('inverted_window') is True)),
+    # a window with exactly as many points as parameters has no degree of freedom: the p-value
+    # is NaN, `NaN < min_p_value` is false and the fit can be marked successful
+    'fit_peaks.nan_p_value_passes_min_p': lambda v: (
+        v['kind'] == 'success_violates_requirement' and _keys(v).get('requirement') == 'min_p_value'
+        and _keys(v).get('p_is_nan') is True and _keys(v).get('zero_dof') is True),
 }
